@@ -5,6 +5,10 @@ HOME = os.path.dirname(os.path.dirname(os.path.abspath(__file__)))
 sys.path.insert(0, HOME)
 
 CHECKS = {
+ "C02": dict(engine="E4 contract sweep + E1 native", technique="runtime contract monitor on the real displacement() methods with an independent energy-space oracle (own U(r), monotone pieces from geometry, periodic re-imaging), hostile boundary-directed inputs; C routine also under AddressSanitizer+UBSan",
+    level="exploration", ref="DESIGN.md §3 C02",
+    text="5e5..3e6 generated (potential, direction, speed, charges, separation, budget) tuples - separations on/around the minimum sphere, tangent, head-on, at +-L/2, tiny; budgets at the oracle's branch thresholds +-4ulp, denormal - go through inverse power, Lennard-Jones, displaced even power, the periodic 1/r C routine, hard sphere/dipole (arbitrary velocities) and the cell-bounding potential. Totality and sign are asserted for all cases, E_up(d)=budget / infinity iff never reached / first crossing for well-conditioned ones.",
+    note="Well-conditioned = budget >1e-9 (relative) away from every oracle threshold and |s| > 1e-3 of the length scale; tolerance 1e-9 in energy plus the oracle's own resolution next to potential minima. Attractive exactly head-on pairs (path through U=-inf) are totality-only."),
  "C10": dict(engine="E3 probe bus + E4 sweep", technique="runtime monitor at the activator hook (multiset of cell-family targets vs ground-truth partners, cell-veto domain enumerated by driving a copy of the real handler with scripted draws) + contract sweep of the real FactorTypeMaps against an independent parser",
     level="exploration", ref="DESIGN.md §3 C10",
     text="After every activator call of shipped and generated cell scenarios (cell-veto, cell-bounding, nearby-only; occupant limits 1, 2, unbounded; units on cell faces, several per cell) the targets of the nearby, surplus and far families are collected as a multiset and compared with all other relevant units from the true positions; generated and shipped factor files are instantiated for every active point mass and compared with the harness parser.",
